@@ -207,7 +207,14 @@ func genSearchWorld(rng *rand.Rand, label string, nPN int, tiedTimes bool, exoti
 				w.titles = append(w.titles, t)
 				claim(hw.Set, pn, "title", t)
 			case k == 6:
-				claim(hw.Set, pn, "camliNodeType", w.nodeTypes[rng.Intn(2)])
+				// node types are given by set- and by add-attribute claims
+				nt := w.nodeTypes[rng.Intn(2)]
+				if rng.Intn(2) == 0 {
+					claim(hw.Set, pn, "camliNodeType", nt)
+				} else if !used["nt"+nt] {
+					used["nt"+nt] = true
+					claim(hw.Add, pn, "camliNodeType", nt)
+				}
 			case k == 7:
 				if rng.Intn(2) == 0 {
 					claim(hw.Set, pn, "camliDefVis", "hide")
@@ -236,6 +243,25 @@ func genSearchWorld(rng *rand.Rand, label string, nPN int, tiedTimes bool, exoti
 					claim(hw.Del, pn, []string{"tag", "title", "camliMember"}[rng.Intn(3)], "")
 				}
 			}
+		}
+	}
+	// relation stress: the same pair of permanodes linked by two different edge attributes, the
+	// older edge superseded or removed
+	for i, pn := range w.pns {
+		if i%7 == 6 || len(w.pns) < 3 {
+			continue
+		}
+		c := w.pns[(i+1)%len(w.pns)]
+		d := w.pns[(i+2)%len(w.pns)]
+		switch i % 6 {
+		case 1:
+			claim(hw.Set, pn, "camliPath:x", c.String())
+			claim(hw.Set, pn, "camliPath:x", d.String())
+			claim(hw.Set, pn, "camliPath:y", c.String())
+		case 3:
+			claim(hw.Add, pn, "camliMember", c.String())
+			claim(hw.Del, pn, "camliMember", c.String())
+			claim(hw.Set, pn, "camliPath:y", c.String())
 		}
 	}
 	// deleted permanodes (delete claims on permanodes only; claim deletions are C07's subject)
